@@ -28,7 +28,24 @@ var hostileLens = []uint32{0, 1, 2, 7, 8, 9, 0xff, 0x1000, 0xffff, 0x10000, 0x7f
 
 func mutateUnit(t *rapid.T, u []byte) []byte {
 	u = append([]byte(nil), u...)
-	switch rapid.IntRange(0, 9).Draw(t, "mut") {
+	switch rapid.IntRange(0, 12).Draw(t, "mut") {
+	case 10, 11: // hostile inner length field of this packet type (cookie / client name / server name / data payload)
+		if len(u) >= 8 {
+			off := map[uint16]int{tsgu.PktTunnelCreate: 16, tsgu.PktTunnelAuth: 8, tsgu.PktChannelCreate: 14, tsgu.PktData: 8}[binary.LittleEndian.Uint16(u)]
+			if off > 0 && len(u) >= off+2 {
+				real := int(binary.LittleEndian.Uint16(u[off:]))
+				v := rapid.SampledFrom([]int{0, 1, real - 1, real + 1, real + 2, 0x7fff, 0xfffe, 0xffff}).Draw(t, "inner")
+				if v < 0 {
+					v = 0
+				}
+				binary.LittleEndian.PutUint16(u[off:], uint16(v))
+			}
+		}
+	case 12: // body truncated at a drawn byte, header length consistent with what is carried
+		if len(u) > 8 {
+			keep := rapid.IntRange(0, len(u)-9).Draw(t, "keepBody")
+			u = tsgu.Packet(binary.LittleEndian.Uint16(u), u[8:8+keep])
+		}
 	case 0: // hostile header length
 		if len(u) >= 8 {
 			binary.LittleEndian.PutUint32(u[4:], rapid.SampledFrom(hostileLens).Draw(t, "hlen"))
@@ -66,7 +83,12 @@ func genC10Pkt(t *rapid.T) c10Pkt {
 	if c.Kind == "legacy" && rapid.IntRange(0, 2).Draw(t, "oddOrder") == 0 {
 		c.Order = rapid.SampledFrom([]string{"in-only", "in-out", "in-in", "out-only", "out-out-in"}).Draw(t, "order")
 	}
-	hist := genHistory(t, o)
+	var hist []PktSpec
+	if rapid.Bool().Draw(t, "validBase") {
+		hist = genValidHistory(t, o, 2000) // a session that gets far, so that hostile bytes hit every phase
+	} else {
+		hist = genHistory(t, o)
+	}
 	units, _ := render(histCfg{Opts: resolveHosts(o), Kind: c.Kind}, hist, "127.0.0.1")
 	nm := rapid.IntRange(1, 3).Draw(t, "nmut")
 	for i := 0; i < nm; i++ {
